@@ -211,11 +211,20 @@ def run_chain(ctx, env):
     for kind in ("hmc", "nuts"):
         whole = {}
         for si, seed in enumerate(((12, 13) if kind == "hmc" else (11,)) if q else (12, 11, 13, 14)):
-            base_rows, base_acc, base_core = plain(env, kind, (4,), seed)
+            try:
+                base_rows, base_acc, base_core = plain(env, kind, (4,), seed)
+            except Exception as e:
+                ctx.violation(dict(kind="chain-raises", which=kind), "%s chain, seed %d: generate_n_samples raised %s: %s" % (kind, seed, type(e).__name__, str(e)[:120]), replay=dict(what="chainseg", kind=kind, cuts=[4], seed=seed))
+                continue
             for c in use:
                 ctx.case(("chain", kind, c, seed))
                 # spec -> code: the segmentation does not change the visited states
-                rows, accs, core = plain(env, kind, c, seed, save_intermediates=(si % 2 == 1))
+                try:
+                    rows, accs, core = plain(env, kind, c, seed, save_intermediates=(si % 2 == 1))
+                except Exception as e:
+                    ctx.violation(dict(kind="chain-raises", which=kind), "%s chain, seed %d, calls of %s transitions: generate_n_samples raised %s: %s" % (kind, seed, list(c), type(e).__name__, str(e)[:120]),
+                                  replay=dict(what="chainseg", kind=kind, cuts=list(c), seed=seed))
+                    continue
                 if "intermediates" in accs:
                     ctx.violation(dict(kind="chain-intermediates", which=kind), "%s chain, calls of %s transitions: the saved intermediate trees do not contain the stored samples" % (kind, list(c)),
                                   replay=dict(what="chainseg", kind=kind, cuts=list(c), seed=seed))
@@ -225,7 +234,12 @@ def run_chain(ctx, env):
                 elif not np.array_equal(rows, base_rows):
                     ctx.add_drift("%s chain cut %s: states agree to 1e-10 but not bitwise" % (kind, list(c)))
                 if si == 0 or not q:
-                    tr, rrows = record(env, kind, c, seed, save_intermediates=(si % 2 == 1))
+                    try:
+                        tr, rrows = record(env, kind, c, seed, save_intermediates=(si % 2 == 1))
+                    except Exception as e:
+                        ctx.violation(dict(kind="chain-raises", which=kind), "%s chain, seed %d, calls of %s transitions (Python loop): raised %s: %s" % (kind, seed, list(c), type(e).__name__, str(e)[:120]),
+                                      replay=dict(what="chainseg", kind=kind, cuts=list(c), seed=seed))
+                        continue
                     traces.append(tr)
                     meta.append((kind, c, seed))
                     if not np.allclose(rrows, base_rows, rtol=1e-10, atol=1e-12):
